@@ -935,7 +935,14 @@ fn posix_off(v: i64) -> String {
 }
 
 /// a synthetic TZif zone from a random zone model
-fn gen_synthetic(c: &mut Ctx) -> Option<(Vec<u8>, String)> {
+/// what a synthetic file was written from: local time types, transitions (time, type index), footer
+struct Written {
+    types: Vec<(i32, bool, String)>,
+    trans: Vec<(i64, u8)>,
+    footer: Option<String>,
+    v3: bool,
+}
+fn gen_synthetic(c: &mut Ctx) -> Option<(Vec<u8>, String, Written)> {
     let names = ["TAA", "TBB", "TCC", "TDD", "TEE", "TFF", "TGG", "THH", "LMT", "+0330"];
     let ntypes = c.rng.range(1, 8) as usize;
     let mut types: Vec<(i32, bool, String)> = vec![];
@@ -1004,7 +1011,8 @@ fn gen_synthetic(c: &mut Ctx) -> Option<(Vec<u8>, String)> {
     let mut label = format!("v{} types={} trans={} nonsep={} extreme={}", if ver == 0 { '1' } else { ver as char }, ntypes, trans.len(), nonsep, extreme);
     let tref: Vec<(i32, bool, &str)> = types.iter().map(|(o, d, n)| (*o, *d, n.as_str())).collect();
     if fk == 0 {
-        return Some((write_tzif(ver, &tref, &trans, ""), label));
+        let w = Written { types: types.clone(), trans: trans.clone(), footer: None, v3: ver == b'3' };
+        return Some((write_tzif(ver, &tref, &trans, ""), label, w));
     }
     let rule = if fk == 1 {
         let (s, _) = hms(c, 14);
@@ -1023,7 +1031,8 @@ fn gen_synthetic(c: &mut Ctx) -> Option<(Vec<u8>, String)> {
         Rule::None => vec![],
     };
     if trans.is_empty() {
-        return Some((write_tzif(ver, &tref, &trans, &rule), label));
+        let w = Written { types: types.clone(), trans: trans.clone(), footer: Some(rule.clone()), v3: ver == b'3' };
+        return Some((write_tzif(ver, &tref, &trans, &rule), label, w));
     }
     for l in cands {
         let mut ty: Vec<(i32, bool, &str)> = tref.clone();
@@ -1033,7 +1042,13 @@ fn gen_synthetic(c: &mut Ctx) -> Option<(Vec<u8>, String)> {
         tr[last].1 = (ty.len() - 1) as u8;
         let bytes = write_tzif(ver, &ty, &tr, &rule);
         if vt::from_tzif(&bytes).is_ok() {
-            return Some((bytes, label));
+            let w = Written {
+                types: ty.iter().map(|(o, d, n)| (*o, *d, n.to_string())).collect(),
+                trans: tr,
+                footer: Some(rule.clone()),
+                v3: ver == b'3',
+            };
+            return Some((bytes, label, w));
         }
     }
     None
@@ -1150,7 +1165,7 @@ pub fn run(c: &mut Ctx) {
     let mut tries = 0;
     while made < nsyn && tries < nsyn * 4 {
         tries += 1;
-        let Some((bytes, label)) = gen_synthetic(c) else {
+        let Some((bytes, label, written)) = gen_synthetic(c) else {
             c.count("syn.footer_inconsistent(regenerated)");
             continue;
         };
@@ -1158,6 +1173,24 @@ pub fn run(c: &mut Ctx) {
             Ok(Ok(z)) => {
                 made += 1;
                 let zc = mk("syn", label, z);
+                // the zone handed to the lookups is the zone the file describes: every local time type,
+                // every transition record (also those that repeat the type in effect), the footer rule
+                let same_types = zc.pz.types.len() == written.types.len()
+                    && zc.pz.types.iter().zip(&written.types).all(|(a, b)| a.off == b.0 as i64 && a.dst == b.1 && a.name == b.2);
+                let same_trans = zc.pz.trans.len() == written.trans.len()
+                    && zc.pz.trans.iter().zip(&written.trans).all(|(a, b)| a.0 == b.0 && a.1 == b.1 as usize);
+                let rule_dump = match &written.footer {
+                    None => "none".to_string(),
+                    Some(r) => vt::rule_from_tz_string(r.as_bytes(), written.v3).unwrap_or_else(|e| format!("err {e}")),
+                };
+                let same_rule = zc.dump.split(' ').nth(3) == Some(&format!("rule={rule_dump}"));
+                if !(same_types && same_trans && same_rule) {
+                    c.fail(
+                        "the zone read from a TZif file is not the zone the file describes (types, transition records, footer)",
+                        &format!("syn [{}] types {} trans {} rule {} -> {}", zc.label, same_types, same_trans, same_rule, short(&zc.dump)),
+                    );
+                }
+                c.count("syn.file-vs-zone-compared");
                 if made <= 2 {
                     c.sample(&format!("synthetic zone {} -> {}", zc.label, short(&zc.dump)));
                 }
